@@ -848,11 +848,28 @@ def diff_wrap_cols(ctx):
                % ('/'.join(missing), sorted(wrapped)))
     # the reduction is reached whenever the columns are present: its guard is a presence test of
     # (a superset of) the reduced columns, not of something else
+    bad_iter = []
+
     def presence_cols(test):
         """the column names whose presence `test` asserts (a membership test, directly or in a
         helper of the package resolved through the module / the enclosing function); None when
         the test is not read as a presence test"""
+        def labels_arg(e):
+            # an iterable of the LABELS of a frame or a series: .index / .columns / .keys();
+            # iterating the object itself yields the column labels of a frame but the VALUES
+            # of a series
+            if isinstance(e, ast.Call) and norm_text(e.func) in ('set', 'list', 'tuple') and e.args:
+                e = e.args[0]
+            return (isinstance(e, ast.Attribute) and e.attr in ('index', 'columns')) or \
+                (isinstance(e, ast.Call) and isinstance(e.func, ast.Attribute) and
+                 e.func.attr == 'keys')
+
         def cols_in(body):
+            for n in ast.walk(body):
+                if isinstance(n, ast.Call) and isinstance(n.func, ast.Attribute) and \
+                        n.func.attr in ('issubset', 'issuperset') and n.args and \
+                        not labels_arg(n.args[0]) and not labels_arg(n.func.value):
+                    bad_iter.append(n)
             has_in = any(isinstance(n, ast.Compare) and any(isinstance(o, ast.In) for o in n.ops)
                          for n in ast.walk(body)) or any(
                 isinstance(n, ast.Call) and isinstance(n.func, ast.Attribute) and
@@ -896,6 +913,14 @@ def diff_wrap_cols(ctx):
             pc = presence_cols(gd.test)
             ctx.need(pc is not None, 'compute_state_difference: guard `%s` of the angle reduction '
                                      'is not read as a presence test' % t[:60])
+            for bi in bad_iter:
+                ctx.ob('DIFF-WRAP', False, None, 'presence is tested on labels', f=f, node=gd,
+                       key='guard-iterates-' + norm_text(bi)[:30],
+                       why='the guard of the angle reduction tests `%s`: set membership by '
+                           'iterating the object yields the column labels of a DataFrame but the '
+                           'VALUES of a Series, so for a pair of Series the angles are never '
+                           'reduced' % norm_text(bi)[:60])
+            del bad_iter[:]
             okg = set(tcols) <= pc
             ctx.ob('DIFF-WRAP', okg, None, 'the reduction of %s is guarded by their presence'
                    % tcols, f=f, node=gd, key='guard-' + ','.join(tcols),
